@@ -75,6 +75,46 @@ def _compare(what, got, want, n):
             raise Violation("FEATURE-DENOTE", "%s: feature %r covers (position, strand) %r, expected %r" % (what, label, a, b))
 
 
+def _extract(feature, word):
+    """The sequence a feature spells: its parts in the order listed, each read
+    on its own strand (coordinates modulo n)."""
+    n = len(word)
+    out = []
+    for (a, b, s) in dna.loc_parts(feature.location):
+        w = dna.circ_slice(word, a % n, b - a)
+        out.append(dna.rc(w) if s == -1 else w)
+    return "".join(out)
+
+
+def _spelling_clause(r, word, rcr, want):
+    """Order-sensitive clause for features whose parts are uniformly stranded
+    or uniformly strand-less: a stranded feature is the same physical object on
+    the mirrored record, so it spells the same sequence; a strand-less one
+    spells the reverse complement."""
+    new = {}
+    for f in rcr.features:
+        new.setdefault(f.qualifiers.get("label", [None])[0], []).append(f)
+    for f in r.features:
+        label = f.qualifiers.get("label", [None])[0]
+        strands = set(p.strand for p in f.location.parts)
+        if len(new.get(label, [])) != 1:
+            continue
+        if any(int(p.end) - int(p.start) == len(word) for p in f.location.parts):
+            continue                      # whole-circle parts: start point carries no information
+        g = new[label][0]
+        if strands <= {1, -1}:
+            exp = _extract(f, word)
+        elif strands == {None}:
+            exp = dna.rc(_extract(f, word))
+        else:
+            continue
+        got = _extract(g, want)
+        if got != exp:
+            raise Violation("FEATURE-SPELLING", "feature %r %s spells %r on the record and %r on its "
+                            "reverse complement (%s), expected %r" % (label, f.location, _extract(f, word),
+                                                                      got, g.location, exp))
+
+
 def check(spec, ctx):
     from moclo.record import CircularRecord
     word = spec["seq"]
@@ -105,6 +145,22 @@ def check(spec, ctx):
         src = [g for g in r.features if g.qualifiers.get("label", [None])[0] == label]
         if src and (f.type != src[0].type or dict(f.qualifiers) != dict(src[0].qualifiers)):
             raise Violation("FEATURE-META", "feature %r type/qualifiers changed" % label)
+
+    _spelling_clause(r, word, rcr, want)
+
+    if spec.get("edit"):
+        # the reverse complement is edited in place (a site annotated on the
+        # other strand); reverse-complementing it again must show the edit
+        from vlib import rec as _rec
+        late = _rec.make_features([{"type": "misc_feature", "parts": [[0, 1, 1]],
+                                    "quals": {"label": ["late"]}}])[0]
+        rcr.features.append(late)
+        back = sut(rcr.reverse_complement)
+        dd = _denots(back, str(back.seq))
+        if "late" not in dd or dd["late"] != [Counter({(n - 1, -1): 1})]:
+            raise Violation("STALE-RESULT", "a feature added to r.rc() at [0:1](+) is %s after reverse-"
+                            "complementing again" % ("at %r" % dd.get("late") if "late" in dd else "missing"))
+        rcr.features.pop()
 
     twice = sut(rcr.reverse_complement)
     if type(twice) is not CircularRecord or str(twice.seq) != word:
@@ -142,6 +198,8 @@ def _specs(draw):
         spec["pre"] = draw(st.lists(st.integers(-n, 2 * n), min_size=1, max_size=3))
     if draw(st.booleans()):
         spec["ann"] = {"topology": "circular", "molecule_type": "DNA"}
+    if draw(st.integers(0, 3)) == 0:
+        spec["edit"] = True
     return spec
 
 
